@@ -19,8 +19,8 @@ theorem chunking_independent {P : Bytes → Bool} {cfg : Cfg} {dv : LineDev} (hf
       runCmds cfg dv.onWrite stripPrompt inputs ({ avail := res, cuts := cuts1 }, []) = some (rs1, (w1, [])) ∧
       runCmds cfg dv.onWrite stripPrompt inputs ({ avail := res, cuts := cuts2 }, []) = some (rs2, (w2, [])) ∧
       rs1.map (·.2) = rs2.map (·.2) ∧ w1.writes = w2.writes := by
-  obtain ⟨rs1, w1, h1, e1, wr1, _⟩ := session_in_step hf stripPrompt inputs hg { avail := res, cuts := cuts1 } hres
-  obtain ⟨rs2, w2, h2, e2, wr2, _⟩ := session_in_step hf stripPrompt inputs hg { avail := res, cuts := cuts2 } hres
+  obtain ⟨rs1, w1, h1, e1, wr1, _, _⟩ := session_in_step hf stripPrompt inputs hg { avail := res, cuts := cuts1 } hres rfl
+  obtain ⟨rs2, w2, h2, e2, wr2, _, _⟩ := session_in_step hf stripPrompt inputs hg { avail := res, cuts := cuts2 } hres rfl
   exact ⟨rs1, w1, rs2, w2, h1, h2, by rw [e1, e2], by rw [wr1, wr2]⟩
 
 /-- **chunking independence for sessions mixing get_prompt and commands**: any two segmentations
@@ -35,10 +35,10 @@ theorem mixed_chunking_independent {P : Bytes → Bool} {cfg : Cfg} {dv : LineDe
       runOps cfg dv.onWrite stripPrompt ops ({ avail := res, cuts := cuts1 }, []) = some (rs, (w1, [])) ∧
       runOps cfg dv.onWrite stripPrompt ops ({ avail := res, cuts := cuts2 }, []) = some (rs, (w2, [])) ∧
       w1.writes = w2.writes := by
-  obtain ⟨rs1, w1, h1, e1, wr1, _⟩ :=
-    mixed_session_in_step hf hfirst hout stripPrompt ops hg { avail := res, cuts := cuts1 } hres
-  obtain ⟨rs2, w2, h2, e2, wr2, _⟩ :=
-    mixed_session_in_step hf hfirst hout stripPrompt ops hg { avail := res, cuts := cuts2 } hres
+  obtain ⟨rs1, w1, h1, e1, wr1, _, _⟩ :=
+    mixed_session_in_step hf hfirst hout stripPrompt ops hg { avail := res, cuts := cuts1 } hres rfl
+  obtain ⟨rs2, w2, h2, e2, wr2, _, _⟩ :=
+    mixed_session_in_step hf hfirst hout stripPrompt ops hg { avail := res, cuts := cuts2 } hres rfl
   subst e1 e2
   exact ⟨_, w1, w2, h1, h2, by rw [wr1, wr2]⟩
 
@@ -56,14 +56,14 @@ theorem interact_chunking_independent {cfg : Cfg} {complete : List Bytes} (hstri
       sendInputsInteract cfg scriptDev (ps.map (·.1)) complete
         ({ avail := res, cuts := cuts2 }, ps.map (·.2) ++ extra) = some ((raw2, r), (w2, d)) ∧
       w1.writes = w2.writes := by
-  obtain ⟨raw1, w1, h1, _, _, _, wr1⟩ :=
-    interact_exact hstrict hret ps extra hg { avail := res, cuts := cuts1 } hres
-  obtain ⟨raw2, w2, h2, _, _, _, wr2⟩ :=
-    interact_exact hstrict hret ps extra hg { avail := res, cuts := cuts2 } hres
+  obtain ⟨raw1, w1, h1, _, _, _, wr1, _⟩ :=
+    interact_exact hstrict hret ps extra hg { avail := res, cuts := cuts1 } hres rfl
+  obtain ⟨raw2, w2, h2, _, _, _, wr2, _⟩ :=
+    interact_exact hstrict hret ps extra hg { avail := res, cuts := cuts2 } hres rfl
   obtain ⟨raw1', s1, n1⟩ :=
-    interact_result_normalized hstrict hret ps extra hg { avail := res, cuts := cuts1 } hres
+    interact_result_normalized hstrict hret ps extra hg { avail := res, cuts := cuts1 } hres rfl
   obtain ⟨raw2', s2, n2⟩ :=
-    interact_result_normalized hstrict hret ps extra hg { avail := res, cuts := cuts2 } hres
+    interact_result_normalized hstrict hret ps extra hg { avail := res, cuts := cuts2 } hres rfl
   rw [h1] at n1; rw [h2] at n2
   simp only [Option.some.injEq, Prod.mk.injEq] at n1 n2
   obtain ⟨⟨_, e1⟩, _⟩ := n1
@@ -89,16 +89,42 @@ theorem chanRead_noESC {c : Bytes} (h : ESC ∉ c) : chanRead c = stripCR c := b
   show (if (stripCR c).contains ESC = true then stripAnsi (stripCR c) else stripCR c) = stripCR c
   rw [this]; rfl
 
+theorem chanReadH_noESC {c : Bytes} (h : ESC ∉ c) : chanReadH [] c = (stripCR c, []) := by
+  unfold chanReadH cleanBuf
+  have : (stripCR c).contains ESC = false := by
+    rw [Bool.eq_false_iff]; intro hc
+    have : ESC ∈ stripCR c := by simpa using hc
+    exact h (List.mem_filter.mp this).1
+  simp only [List.nil_append, this]
+  rfl
+
+theorem cleanPieces_noESC : ∀ (rs : List Bytes), ESC ∉ rs.flatten →
+    cleanPieces [] rs = (rs.map stripCR, []) := by
+  intro rs
+  induction rs with
+  | nil => intro _; rfl
+  | cons c cs ih =>
+    intro h
+    have hc : ESC ∉ c := fun x => h (by simp [x])
+    have hcs : ESC ∉ cs.flatten := fun x => h (by simp [x])
+    unfold cleanPieces
+    rw [chanReadH_noESC hc]
+    simp only
+    rw [ih hcs]
+    rfl
+
 /-- what the channel's loops see — the concatenation of the cleaned reads — is the CR-stripped
-    stream, for EVERY segmentation (ESC-free streams) -/
+    stream, for EVERY segmentation (ESC-free streams), and nothing is held back -/
 theorem cleaned_stream (rs : List Bytes) (h : ESC ∉ rs.flatten) :
-    (rs.map chanRead).flatten = stripCR rs.flatten := by
+    (cleanPieces [] rs).1.flatten = stripCR rs.flatten ∧ (cleanPieces [] rs).2 = [] := by
+  rw [cleanPieces_noESC rs h]
+  refine ⟨?_, rfl⟩
+  simp only
   induction rs with
   | nil => rfl
   | cons c cs ih =>
-    have hc : ESC ∉ c := fun x => h (by simp [x])
     have hcs : ESC ∉ cs.flatten := fun x => h (by simp [x])
-    simp only [List.map_cons, List.flatten_cons, stripCR_append, chanRead_noESC hc, ih hcs]
+    simp only [List.map_cons, List.flatten_cons, stripCR_append, ih hcs]
 
 /-- **prompt read under arbitrary chunking AND arbitrary CR decoration**: if the raw pieces,
     CRs removed, concatenate to `body ++ NL :: p ++ t`, the read stops at the prompt with the same
@@ -109,10 +135,10 @@ theorem readUntilPrompt_cr_chunk_indep {P : Bytes → Bool} (pat : Pat) (d : Nat
     (hnlp : NL ∉ p) (hnlt : NL ∉ t) (hp0 : p ≠ []) (hd : (p ++ t).length < d)
     (rs : List Bytes) (hesc : ESC ∉ rs.flatten) (hrs : stripCR rs.flatten = body ++ NL :: p ++ t) :
     ∃ k t', t' <+: t ∧
-      readLoop (promptSeen pat d) [] (rs.map chanRead) = some (body ++ NL :: p ++ t', k) := by
+      readLoop (promptSeen pat d) [] (cleanPieces [] rs).1 = some (body ++ NL :: p ++ t', k) := by
   obtain ⟨k, t', ht', _, hrl, _⟩ :=
-    readLoop_prompt pat d body p t hS hb he hok hnlp hnlt hp0 hd (rs.map chanRead) []
-      (by rw [List.nil_append, cleaned_stream rs hesc, hrs]) (by simp; omega)
+    readLoop_prompt pat d body p t hS hb he hok hnlp hnlt hp0 hd (cleanPieces [] rs).1 []
+      (by rw [List.nil_append, (cleaned_stream rs hesc).1, hrs]) (by simp; omega)
   exact ⟨k, t', ht', hrl⟩
 
 /-! ### escape sequences -/
@@ -224,6 +250,453 @@ theorem ansi_whole_chunk (segs : List Seg) :
     | seq q =>
       simp only [List.map_cons, List.flatten_cons, Seg.bytes, Seg.plain, List.nil_append]
       rw [stripAnsi_seq, ih]
+
+/-! ### escape sequences cut by read boundaries (fix: `_strip_ansi_read`) -/
+
+/-- the incomplete-sequence pattern and the hold-back bound in the source are the ones the model
+    mirrors (regenerated each run) -/
+theorem holdback_pinned : Scrapli.Gen.Chan.incompletePatternIsPinned = true ∧
+    Scrapli.Gen.Chan.heldMaxSource = some heldMax := by decide
+
+/-- a sequence the hold-back can carry: no introducer byte after the first one, at most `heldMax` bytes -/
+def Seq.Tame (s : Seq) : Prop :=
+  (∀ x ∈ s.bytes.tail, isAnsiStart x = false) ∧ s.bytes.length ≤ heldMax
+
+def Seg.Tame : Seg → Prop
+  | .text _ _ => True
+  | .seq s => s.Tame
+
+def segBytes (segs : List Seg) : Bytes := (segs.map Seg.bytes).flatten
+def segPlain (segs : List Seg) : Bytes := (segs.map Seg.plain).flatten
+
+theorem Seq.bytes_head (s : Seq) : ∃ t, s.bytes = ESC :: t ∧ t ≠ [] := by
+  cases s with
+  | cursor c h => exact ⟨[c], rfl, by simp⟩
+  | csi params fin hp hf => exact ⟨91 :: params ++ [fin], rfl, by simp⟩
+  | osc d text hd ht => exact ⟨93 :: d :: text ++ [7], rfl, by simp⟩
+
+theorem stripAnsi_plain (y : Bytes) (h : ∀ x ∈ y, isAnsiStart x = false) : stripAnsi y = y := by
+  have := stripAnsi_text y [] h
+  simpa [stripAnsi] using this
+
+theorem splitHeld_plain : ∀ (y : Bytes), (∀ x ∈ y, isAnsiStart x = false) → splitHeld y = (y, []) := by
+  intro y
+  induction y with
+  | nil => intro _; rfl
+  | cons c t ih =>
+    intro h
+    have hc : (c == ESC) = false := by
+      rw [Bool.eq_false_iff]; intro e
+      have e' : c = ESC := by simpa using e
+      have := h c (by simp)
+      rw [e'] at this
+      revert this; decide
+    unfold splitHeld
+    simp only [hc, Bool.false_and, Bool.false_eq_true, ↓reduceIte]
+    rw [ih (fun x hx => h x (by simp [hx]))]
+
+/-- text in front passes through the hold-back search -/
+theorem splitHeld_text : ∀ (b y : Bytes), (∀ x ∈ b, isAnsiStart x = false) →
+    splitHeld (b ++ y) = (b ++ (splitHeld y).1, (splitHeld y).2) := by
+  intro b
+  induction b with
+  | nil => intro y _; simp
+  | cons c t ih =>
+    intro y h
+    have hc : (c == ESC) = false := by
+      rw [Bool.eq_false_iff]; intro e
+      have e' : c = ESC := by simpa using e
+      have := h c (by simp)
+      rw [e'] at this
+      revert this; decide
+    rw [List.cons_append, splitHeld]
+    simp only [hc, Bool.false_and, Bool.false_eq_true, ↓reduceIte]
+    rw [ih y (fun x hx => h x (by simp [hx]))]
+    rfl
+
+theorem contains_ESC_text (b y : Bytes) (h : ∀ x ∈ b, isAnsiStart x = false) :
+    (b ++ y).contains ESC = y.contains ESC := by
+  have hnb : ESC ∉ b := by
+    intro hm
+    have := h ESC hm
+    revert this; decide
+  rw [Bool.eq_iff_iff]
+  simp [hnb]
+
+/-- text in front passes through one cleaning step -/
+theorem cleanBuf_text (b y : Bytes) (h : ∀ x ∈ b, isAnsiStart x = false) :
+    cleanBuf (b ++ y) = (b ++ (cleanBuf y).1, (cleanBuf y).2) := by
+  unfold cleanBuf
+  rw [contains_ESC_text b y h]
+  split
+  · rw [stripAnsi_text b y h, splitHeld_text b _ h]
+  · rfl
+
+theorem lazyUntil_none (p : UInt8 → Bool) : ∀ (xs : Bytes), (∀ x ∈ xs, p x = false) → lazyUntil p xs = none := by
+  intro xs
+  induction xs with
+  | nil => intro _; rfl
+  | cons c t ih =>
+    intro h
+    have hc := h c (by simp)
+    unfold lazyUntil
+    simp only [hc, Bool.false_eq_true, ↓reduceIte]
+    split
+    · rfl
+    · rw [ih (fun x hx => h x (by simp [hx]))]; rfl
+
+theorem noneStop_of (p : UInt8 → Bool) (xs : Bytes) (h : ∀ x ∈ xs, p x = false ∧ x ≠ NL) : noneStop p xs = true := by
+  unfold noneStop
+  rw [List.all_eq_true]
+  intro x hx
+  obtain ⟨h1, h2⟩ := h x hx
+  simp [h1, h2]
+
+/-- **the beginning of a sequence, alone at the end of a buffer**: nothing matches, the incomplete
+    pattern does -/
+theorem seq_prefix_incomplete (s : Seq) (q x : Bytes) (hq : ESC :: q ++ x = s.bytes) (hx : x ≠ []) :
+    ansiAfterStart q = none ∧ incompleteAfter q = true := by
+  cases s with
+  | cursor c h =>
+    simp only [Seq.bytes, List.cons_append, List.cons.injEq, true_and] at hq
+    have : q = [] := by
+      cases q with
+      | nil => rfl
+      | cons a r =>
+        exfalso
+        simp only [List.cons_append, List.cons.injEq] at hq
+        have := hq.2
+        simp at this
+        exact hx this.2
+    subst this
+    exact ⟨rfl, rfl⟩
+  | csi params fin hp hf =>
+    simp only [Seq.bytes, List.cons_append, List.cons.injEq, true_and] at hq
+    cases q with
+    | nil => exact ⟨rfl, rfl⟩
+    | cons a r =>
+      simp only [List.cons_append, List.cons.injEq] at hq
+      obtain ⟨ha, hr⟩ := hq
+      subst ha
+      -- r ++ x = params ++ [fin], x ≠ [] ⇒ r is a prefix of params
+      have hrp : ∀ y ∈ r, isFinal y = false ∧ y ≠ NL := by
+        intro y hy
+        rcases List.append_eq_append_iff.mp hr with ⟨a', h1, _⟩ | ⟨c', h1, h2⟩
+        · exact hp y (by rw [h1]; exact List.mem_append_left _ hy)
+        · -- r = params ++ c', [fin] = c' ++ x with x ≠ [] ⇒ c' = []
+          have : c' = [] := by
+            cases c' with
+            | nil => rfl
+            | cons c0 cr =>
+              exfalso
+              simp only [List.cons_append, List.cons.injEq] at h2
+              have := h2.2
+              have : cr ++ x = [] := this.symm
+              exact hx (List.append_eq_nil_iff.mp this).2
+          subst this
+          simp only [List.append_nil] at h1
+          subst h1
+          exact hp y hy
+      constructor
+      · have : lazyUntil isFinal r = none := lazyUntil_none isFinal r (fun y hy => (hrp y hy).1)
+        simp [ansiAfterStart, isWs, ansiBody, isCursor, this]
+      · have := noneStop_of isFinal r hrp
+        simp [incompleteAfter, isWs, incompleteBody, this]
+  | osc d text hd ht =>
+    simp only [Seq.bytes, List.cons_append, List.cons.injEq, true_and] at hq
+    cases q with
+    | nil => exact ⟨rfl, rfl⟩
+    | cons a r =>
+      simp only [List.cons_append, List.cons.injEq] at hq
+      obtain ⟨ha, hr⟩ := hq
+      subst ha
+      cases r with
+      | nil => exact ⟨by simp [ansiAfterStart, isWs, ansiBody, isCursor], by simp [incompleteAfter, isWs, incompleteBody]⟩
+      | cons a2 r2 =>
+        simp only [List.cons_append, List.cons.injEq] at hr
+        obtain ⟨ha2, hr2⟩ := hr
+        subst ha2
+        have hrp : ∀ y ∈ r2, (y == 7) = false ∧ y ≠ NL := by
+          intro y hy
+          rcases List.append_eq_append_iff.mp hr2 with ⟨a', h1, _⟩ | ⟨c', h1, h2⟩
+          · have := ht y (by rw [h1]; exact List.mem_append_left _ hy)
+            exact ⟨by simpa using this.1, this.2⟩
+          · have : c' = [] := by
+              cases c' with
+              | nil => rfl
+              | cons c0 cr =>
+                exfalso
+                simp only [List.cons_append, List.cons.injEq] at h2
+                have := h2.2
+                have : cr ++ x = [] := this.symm
+                exact hx (List.append_eq_nil_iff.mp this).2
+            subst this
+            simp only [List.append_nil] at h1
+            subst h1
+            have := ht y hy
+            exact ⟨by simpa using this.1, this.2⟩
+        constructor
+        · have : lazyUntil (· == 7) r2 = none := lazyUntil_none _ r2 (fun y hy => (hrp y hy).1)
+          simp [ansiAfterStart, isWs, ansiBody, isCursor, hd, this]
+        · have := noneStop_of (· == 7) r2 hrp
+          simp [incompleteAfter, isWs, incompleteBody, hd, this]
+
+/-- one cleaning step on a buffer that is the proper beginning of a tame sequence: nothing is
+    returned, all of it is held back -/
+theorem cleanBuf_seq_prefix (s : Seq) (hs : s.Tame) (p x : Bytes) (hp : p ++ x = s.bytes) (hp0 : p ≠ [])
+    (hx : x ≠ []) : cleanBuf p = ([], p) := by
+  obtain ⟨t, ht, _⟩ := s.bytes_head
+  cases p with
+  | nil => exact absurd rfl hp0
+  | cons c q =>
+    have hc : c = ESC := by rw [ht] at hp; simpa using (List.cons.inj hp).1
+    subst hc
+    have hq : ESC :: q ++ x = s.bytes := by simpa using hp
+    obtain ⟨hnone, hinc⟩ := seq_prefix_incomplete s q x hq hx
+    have hqplain : ∀ y ∈ q, isAnsiStart y = false := by
+      intro y hy
+      apply hs.1 y
+      rw [← hq]
+      simp [hy]
+    have hlen : q.length + 1 ≤ heldMax := by
+      have := hs.2
+      rw [← hq] at this
+      simp only [List.cons_append, List.length_cons, List.length_append] at this
+      omega
+    unfold cleanBuf
+    have : (ESC :: q).contains ESC = true := by simp
+    simp only [this, ↓reduceIte]
+    rw [stripAnsi]
+    simp only [isAnsiStart, ESC, beq_self_eq_true, Bool.true_or, ↓reduceIte]
+    have hnone' : ansiAfterStart q = none := hnone
+    rw [hnone']
+    simp only
+    rw [stripAnsi_plain q hqplain, splitHeld]
+    have : ((27 : UInt8) == ESC && incompleteAfter q) = true := by simp [ESC, hinc]
+    simp only [this, ↓reduceIte, hlen]
+
+/-- what may be held back in front of a stream of segments: nothing, or the proper beginning of its
+    first sequence -/
+def HeldShape (h : Bytes) (segs : List Seg) : Prop :=
+  h = [] ∨ ∃ s tl x, segs = Seg.seq s :: tl ∧ h ++ x = s.bytes ∧ x ≠ [] ∧ h ≠ []
+
+theorem tame_introducers_are_ESC : ∀ (segs : List Seg), (∀ g ∈ segs, g.Tame) →
+    ∀ x ∈ segBytes segs, isAnsiStart x = true → x = ESC := by
+  intro segs
+  induction segs with
+  | nil => intro _ x hx; simp [segBytes] at hx
+  | cons g tl ih =>
+    intro ht x hx hi
+    simp only [segBytes, List.map_cons, List.flatten_cons, List.mem_append] at hx
+    rcases hx with h1 | h1
+    · cases g with
+      | text b hb => exact absurd hi (by simp [hb x h1])
+      | seq s =>
+        obtain ⟨t, hst, _⟩ := s.bytes_head
+        have hs : s.Tame := ht (Seg.seq s) List.mem_cons_self
+        simp only [Seg.bytes] at h1
+        rw [hst] at h1
+        rcases List.mem_cons.mp h1 with e | e
+        · exact e
+        · have := hs.1 x (by rw [hst]; simpa using e)
+          exact absurd hi (by simp [this])
+    · exact ih (fun g hg => ht g (by simp [hg])) x h1 hi
+
+/-- **one read over a stream of text and tame sequences, cut ANYWHERE**: what is returned is the
+    text of the segments that are complete in the buffer; what is held back is the beginning of the
+    sequence the buffer ends in (if any); together with the rest of the stream it is again a stream
+    of text and tame sequences. -/
+theorem cleanBuf_segs : ∀ (segs : List Seg), (∀ g ∈ segs, g.Tame) → ∀ (buf rest : Bytes),
+    buf ++ rest = segBytes segs →
+    ∃ segs', (∀ g ∈ segs', g.Tame) ∧ (cleanBuf buf).2 ++ rest = segBytes segs' ∧
+      (cleanBuf buf).1 ++ segPlain segs' = segPlain segs ∧ HeldShape (cleanBuf buf).2 segs' := by
+  intro segs
+  induction segs with
+  | nil =>
+    intro _ buf rest h
+    have : buf = [] ∧ rest = [] := by simpa [segBytes] using h
+    obtain ⟨rfl, rfl⟩ := this
+    exact ⟨[], by simp, by simp [cleanBuf, segBytes], by simp [cleanBuf, segPlain], Or.inl (by simp [cleanBuf])⟩
+  | cons g tl ih =>
+    intro ht buf rest h
+    have httl : ∀ g ∈ tl, g.Tame := fun g hg => ht g (by simp [hg])
+    have hsb : segBytes (g :: tl) = g.bytes ++ segBytes tl := by simp [segBytes]
+    rw [hsb] at h
+    cases g with
+    | text b hb =>
+      simp only [Seg.bytes] at h
+      rcases List.append_eq_append_iff.mp h with ⟨a', h1, h2⟩ | ⟨c', h1, h2⟩
+      · -- the buffer ends inside the text: b = buf ++ a'
+        have hbuf : ∀ x ∈ buf, isAnsiStart x = false := fun x hx => hb x (by rw [h1]; exact List.mem_append_left _ hx)
+        have ha' : ∀ x ∈ a', isAnsiStart x = false := fun x hx => hb x (by rw [h1]; exact List.mem_append_right _ hx)
+        have hcb : cleanBuf buf = (buf, []) := by
+          have := cleanBuf_text buf [] hbuf
+          simpa [cleanBuf] using this
+        refine ⟨Seg.text a' ha' :: tl, ?_, ?_, ?_, Or.inl (by rw [hcb])⟩
+        · intro g hg
+          rcases List.mem_cons.mp hg with e | e
+          · subst e; trivial
+          · exact httl g e
+        · rw [hcb]; simp [segBytes, Seg.bytes, h2]
+        · rw [hcb]; simp [segPlain, Seg.plain, h1]
+      · -- the whole text is in the buffer: buf = b ++ c'
+        obtain ⟨segs', h1', h2', h3', h4'⟩ := ih httl c' rest h2.symm
+        rw [h1, cleanBuf_text b c' hb]
+        refine ⟨segs', h1', h2', ?_, h4'⟩
+        simp only [segPlain, List.map_cons, List.flatten_cons, Seg.plain, List.append_assoc] at h3' ⊢
+        rw [h3']
+    | seq s =>
+      have hs : s.Tame := ht (Seg.seq s) List.mem_cons_self
+      simp only [Seg.bytes] at h
+      rcases List.append_eq_append_iff.mp h with ⟨a', h1, h2⟩ | ⟨c', h1, h2⟩
+      · -- the buffer ends inside the sequence (or exactly at its end)
+        cases a' with
+        | nil =>
+          -- buf = s.bytes: the sequence is complete
+          simp only [List.append_nil] at h1
+          obtain ⟨segs', h1', h2', h3', h4'⟩ := ih httl [] rest (by simp [h2])
+          have hcb : cleanBuf buf = ([], []) := by
+            rw [← h1]
+            unfold cleanBuf
+            obtain ⟨t, hst, _⟩ := s.bytes_head
+            have : s.bytes.contains ESC = true := by rw [hst]; simp
+            simp only [this, ↓reduceIte]
+            have := stripAnsi_seq s []
+            simp only [List.append_nil] at this
+            rw [this]
+            simp [stripAnsi, splitHeld]
+          have hc0 : cleanBuf ([] : Bytes) = ([], []) := by simp [cleanBuf]
+          rw [hc0] at h2' h3' h4'
+          refine ⟨segs', h1', by rw [hcb]; exact h2', ?_, by rw [hcb]; exact h4'⟩
+          rw [hcb]
+          simp only [segPlain, List.map_cons, List.flatten_cons, Seg.plain, List.nil_append] at h3' ⊢
+          exact h3'
+        | cons a0 ar =>
+          by_cases hb0 : buf = []
+          · subst hb0
+            refine ⟨Seg.seq s :: tl, ht, ?_, ?_, Or.inl (by simp [cleanBuf])⟩
+            · simp only [cleanBuf, List.contains_nil, Bool.false_eq_true, ↓reduceIte, List.nil_append] at h ⊢
+              rw [hsb]; exact h
+            · simp [cleanBuf]
+          · have hcb := cleanBuf_seq_prefix s hs buf (a0 :: ar) h1.symm hb0 (by simp)
+            refine ⟨Seg.seq s :: tl, ht, ?_, ?_, ?_⟩
+            · rw [hcb, hsb]; exact h
+            · rw [hcb]; simp
+            · rw [hcb]
+              exact Or.inr ⟨s, tl, a0 :: ar, rfl, h1.symm, by simp, hb0⟩
+      · -- the whole sequence is in the buffer: buf = s.bytes ++ c'
+        obtain ⟨segs', h1', h2', h3', h4'⟩ := ih httl c' rest h2.symm
+        have hcb : cleanBuf buf = cleanBuf c' := by
+          rw [h1]
+          unfold cleanBuf
+          obtain ⟨t, hst, _⟩ := s.bytes_head
+          have hc1 : (s.bytes ++ c').contains ESC = true := by rw [hst]; simp
+          simp only [hc1, ↓reduceIte, stripAnsi_seq]
+          split
+          · rfl
+          · -- c' has no ESC: it is text only (introducers of a tame stream are ESCs)
+            rename_i hne
+            have hc'plain : ∀ x ∈ c', isAnsiStart x = false := by
+              intro x hx
+              cases hi : isAnsiStart x with
+              | false => rfl
+              | true =>
+                exfalso
+                have hmem : x ∈ segBytes tl := by rw [h2]; exact List.mem_append_left _ hx
+                have := tame_introducers_are_ESC tl httl x hmem hi
+                subst this
+                exact hne (by simpa using hx)
+            rw [stripAnsi_plain c' hc'plain, splitHeld_plain c' hc'plain]
+        rw [hcb]
+        refine ⟨segs', h1', h2', ?_, h4'⟩
+        simp only [segPlain, List.map_cons, List.flatten_cons, Seg.plain, List.nil_append] at h3' ⊢
+        exact h3'
+
+theorem segPlain_of_bytes_nil : ∀ (segs : List Seg), segBytes segs = [] → segPlain segs = [] := by
+  intro segs
+  induction segs with
+  | nil => intro _; rfl
+  | cons g tl ih =>
+    intro h
+    simp only [segBytes, List.map_cons, List.flatten_cons, List.append_eq_nil_iff] at h
+    cases g with
+    | text b hb =>
+      simp only [Seg.bytes] at h
+      have h2 := ih (by simpa [segBytes] using h.2)
+      simp only [segPlain] at h2
+      simp only [segPlain, List.map_cons, List.flatten_cons, Seg.plain, h.1, h2, List.append_nil]
+    | seq s =>
+      obtain ⟨t, hst, _⟩ := s.bytes_head
+      simp only [Seg.bytes, hst] at h
+      exact absurd h.1 (by simp)
+
+/-- the reads of a whole stream, the stream starting with what is held back -/
+theorem cleanPieces_segs : ∀ (rs : List Bytes) (h : Bytes) (segs : List Seg), (∀ g ∈ segs, g.Tame) →
+    CR ∉ rs.flatten → h ++ rs.flatten = segBytes segs → HeldShape h segs →
+    (cleanPieces h rs).1.flatten = segPlain segs ∧ (cleanPieces h rs).2 = [] := by
+  intro rs
+  induction rs with
+  | nil =>
+    intro h segs _ _ hb hshape
+    simp only [List.flatten_nil, List.append_nil] at hb
+    rcases hshape with e | ⟨s, tl, x, hsegs, hhx, hx, _⟩
+    · subst e
+      exact ⟨by simp [cleanPieces, segPlain_of_bytes_nil segs hb.symm], rfl⟩
+    · exfalso
+      rw [hsegs] at hb
+      have : h.length = (s.bytes ++ segBytes tl).length := by
+        rw [hb]; simp [segBytes, Seg.bytes]
+      have h2 : s.bytes.length = h.length + x.length := by rw [← hhx]; simp
+      have h3 : 0 < x.length := List.length_pos_iff.mpr hx
+      simp only [List.length_append] at this
+      omega
+  | cons c cs ih =>
+    intro h segs ht hcr hb _
+    have hc : CR ∉ c := fun x => hcr (by simp [x])
+    have hcs : CR ∉ cs.flatten := fun x => hcr (by simp [x])
+    have hsc : stripCR c = c := by
+      unfold stripCR
+      rw [List.filter_eq_self]
+      intro a ha
+      have : a ≠ CR := fun e => hc (e ▸ ha)
+      simpa using this
+    obtain ⟨segs', h1, h2, h3, h4⟩ := cleanBuf_segs segs ht (h ++ c) cs.flatten (by simpa using hb)
+    obtain ⟨ih1, ih2⟩ := ih (cleanBuf (h ++ c)).2 segs' h1 hcs h2 h4
+    unfold cleanPieces
+    simp only [chanReadH, hsc, List.flatten_cons]
+    exact ⟨by rw [ih1, h3], ih2⟩
+
+/-- **escape sequences are invisible under EVERY segmentation** (since fix `_strip_ansi_read`): over
+    ANY list of reads whose concatenation is a stream of text and complete supported sequences
+    (ESC-introduced, no introducer byte inside, at most 256 bytes each) — cuts inside sequences
+    included — the concatenation of what the reads return is exactly the text, and nothing is held
+    back at the end. -/
+theorem ansi_any_chunk (segs : List Seg) (ht : ∀ g ∈ segs, g.Tame) (rs : List Bytes)
+    (hcr : CR ∉ rs.flatten) (hrs : rs.flatten = segBytes segs) :
+    (cleanPieces [] rs).1.flatten = segPlain segs ∧ (cleanPieces [] rs).2 = [] :=
+  cleanPieces_segs rs [] segs ht hcr (by simpa using hrs) (Or.inl rfl)
+
+/-- non-vacuity: "ab ESC[31m c ESC]0;t BEL d" -/
+def exSegs : List Seg :=
+  [.text [97, 98] (by decide), .seq (.csi [51, 49] 109 (by decide) (by decide)), .text [99] (by decide),
+   .seq (.osc 48 [59, 116] (by decide) (by decide)), .text [100] (by decide)]
+
+theorem exSegs_tame : ∀ g ∈ exSegs, g.Tame := by
+  intro g hg
+  simp only [exSegs, List.mem_cons, List.not_mem_nil, or_false] at hg
+  rcases hg with e | e | e | e | e <;> subst e
+  · trivial
+  · exact ⟨by decide, by decide⟩
+  · trivial
+  · exact ⟨by decide, by decide⟩
+  · trivial
+
+/-- … read as  "ab ESC[3" · "1mc ESC" · "]0;t" · "BEL d": every read ends inside a sequence, the
+    reads together return "abcd" -/
+example : (cleanPieces [] [[97, 98, 27, 91, 51], [49, 109, 99, 27], [93, 48, 59, 116], [7, 100]]).1.flatten
+    = [97, 98, 99, 100] ∧
+    (cleanPieces [] [[97, 98, 27, 91, 51], [49, 109, 99, 27], [93, 48, 59, 116], [7, 100]]).2 = [] :=
+  ansi_any_chunk exSegs exSegs_tame _ (by decide) (by decide)
 
 /-! ### rough echo matching -/
 
